@@ -1029,6 +1029,7 @@ func (s *Service) runWith(wid string, cb func()) {
 	// The service may have been closed since the state was checked.
 	// A nil workqueue signals that the service is closing.
 	if s.workqueue == nil {
+		vhook("rw.closing", wid)
 		s.mu.Unlock()
 		vhook("rw.refused", wid)
 		return
